@@ -87,8 +87,47 @@ fn stage_chain(ctx: &mut Ctx, f: &[BigInt], p: &BigInt) {
     }
 }
 
+/// the factor list printed by the CLI for one modulus, in the wire format of `pm.factor`
+fn parse_cli(out: &str) -> Option<String> {
+    let mut facs = vec![];
+    let mut rest = out;
+    while let Some(i) = rest.find("\"factor_vec\":") {
+        rest = &rest[i..];
+        let a = rest.find('[')?;
+        let b = rest.find(']')?;
+        let coefs: Vec<String> =
+            rest[a + 1..b].split(',').map(|s| s.trim().trim_matches('"').to_string()).filter(|s| !s.is_empty()).collect();
+        rest = &rest[b..];
+        let j = rest.find("\"e\":")?;
+        let e: String = rest[j + 4..].trim_start().chars().take_while(|c| c.is_ascii_digit()).collect();
+        rest = &rest[j..];
+        facs.push(format!("{}:{}", if coefs.is_empty() { "_".to_string() } else { coefs.join(",") }, e));
+    }
+    if !out.contains("\"modulus\"") {
+        return None;
+    }
+    Some(if facs.is_empty() { "_".to_string() } else { facs.join(";") })
+}
+/// process level: `rust-number-theory <config>` with to_find = factorization-mod-p (the glue computes the
+/// machine-word copy of p itself: `as_usize` in main.rs)
+fn do_cli(ctx: &mut Ctx, f: &[BigInt], p: &BigInt) {
+    let cfg = format!(
+        "to_find = ['factorization-mod-p']\n[input.polynomial_and_primes]\npolynomial = {}\nprimes = ['{}']\n",
+        toml_list(f),
+        p
+    );
+    if let Some(out) = run_cli(&cfg) {
+        let ans = if out.starts_with("panic") { out } else { parse_cli(&out).unwrap_or_else(|| "noanswer".into()) };
+        ctx.emit("cli.fmp", &[show_ints(f), p.to_string()], ans);
+    }
+}
+
 pub fn replay(ctx: &mut Ctx, f: &[&str]) -> bool {
     match (f[0], f.len()) {
+        ("cli.fmp", 3) => {
+            do_cli(ctx, &parse_ints(f[1]), &parse_int(f[2]));
+            return true;
+        }
         ("pm.sqfree", 4) => {
             do_stage_sqfree(ctx, &parse_ints(f[1]), &parse_int(f[2]), f[3].parse().unwrap());
             return true;
@@ -328,6 +367,41 @@ pub fn generate(ctx: &mut Ctx) {
         do_factor(ctx, &[BigInt::from(1)], p, vec![]);
         do_factor(ctx, &[BigInt::from(-1), p.clone() * 2], p, vec![]);
         do_factor(ctx, &ints(&[0, 1]), p, vec![]);
+    }
+    // 4. process level (only when RNT_BIN is set): p-th powers over the small primes (the exponent scale
+    //    is the machine-word copy computed by the CLI), products over word-size and larger primes,
+    //    coefficient lists ending in zeros
+    let cli_rounds = ctx.pick(6, 40);
+    for p in primes.iter().take(12) {
+        let bl = blocks(ctx, p);
+        let ps = p.to_u64().filter(|&q| q <= 13).map(|q| q as usize);
+        for round in 0..cli_rounds {
+            if p.bits() > 64 && round >= 2 {
+                break;
+            }
+            let mut f = vec![BigInt::one()];
+            for _ in 0..1 + ctx.rng.below(3) {
+                let d = ctx.rng.below(bl.len() as u64) as usize;
+                if bl[d].is_empty() {
+                    continue;
+                }
+                let g = bl[d][ctx.rng.below(bl[d].len() as u64) as usize].clone();
+                let e = match (ctx.rng.below(4), ps) {
+                    (0, Some(q)) => q,
+                    (1, Some(q)) if q <= 3 => q * q,
+                    (2, _) => 2,
+                    _ => 1,
+                };
+                if f.len() - 1 + e * (g.len() - 1) <= 14 {
+                    f = reduce(&mul_z(&f, &pow_z(&g, e, p)), p);
+                }
+            }
+            let mut f = finish(ctx, &f, p);
+            if round % 3 == 0 {
+                f.push(BigInt::zero());
+            }
+            do_cli(ctx, &f, p);
+        }
     }
     for (fz, p, u) in [
         (ints(&[1, 0, 0, 1]), 3u64, 0usize), // (x+1)^3 with pusize 0: division by zero
